@@ -1,0 +1,111 @@
+//go:build verif
+
+package cache
+
+// Contracts for the deductive verifier in /verif (govc); comments only.
+
+/*@
+// The intrusive list stores addresses of the listItem fields embedded in
+// cache and item; structPtr goes back from such an address to its owner.
+embedded item.used, cache.usage
+
+// Lock discipline (property C10): the map, the byte total and the list links
+// are only touched while c.lock is held; hit/miss only through sync/atomic;
+// conf and the items' key/value are immutable after construction.
+guarded cache.items, cache.size by lock
+
+// wfNode: a linked list node whose neighbours point back to it.
+spec fn wfNode(n *listItem) bool = n != nil && n.next != nil && n.prev != nil && n.next.prev == n && n.prev.next == n
+  inline
+
+// isNode: a is the sentinel of c or the `used` field of an item stored in
+// c.items under the item's own key.
+spec fn isItemNode(c *cache, a *listItem) bool =
+  a == addr(owner(a, "item"), "used") && owner(a, "item") != nil &&
+  haskey(c.items, strid(owner(a, "item").key)) && mapget(c.items, strid(owner(a, "item").key)) == owner(a, "item")
+  inline
+spec fn isNode(c *cache, a *listItem) bool = a == addr(c, "usage") || isItemNode(c, a)
+  inline
+
+// Monitor invariant of c.lock: what every lock holder finds and must leave.
+monitor c cache.lock
+  modifies c.items, c.size, allof("listItem"), allof("map[string]*item")
+  invariant map_allocated: !isnil(c.items)
+  invariant conf_normalised: c.conf.MaxCount > 0 && c.conf.MaxSize > 0 && c.conf.MaxElementSize <= c.conf.MaxSize
+  invariant count_bound: len(c.items) <= c.conf.MaxCount
+  // physical bound: the live keys and values fit in memory, so the byte total
+  // cannot wrap around
+  assume_invariant size_physical: c.size <= 4611686018427387904
+  assume_invariant sentinel_linked: wfNode(addr(c, "usage")) && isNode(c, addr(c, "usage").next) && isNode(c, addr(c, "usage").prev)
+  invariant items_keyed: forall k: haskey(c.items, k) ==> mapget(c.items, k) != nil && strid(mapget(c.items, k).key) == k
+  assume_invariant lru_items_linked: c.conf.EnableLRU ==> (forall k: haskey(c.items, k) ==> wfNode(addr(mapget(c.items, k), "used")))
+
+// Postconditions are stated for single-goroutine histories (property C09):
+// the state found at Lock is the state at entry.  k ranges over key
+// identities (strid of the key bytes).
+
+func newCache
+  ensures created: result0 != nil && fresh(result0) && !locked(result0.lock) && monitor(result0, "lock") && monitor_assumed(result0, "lock")
+  ensures empty: (forall k: !haskey(result0.items, k)) && result0.size == 0 && result0.hit == 0 && result0.miss == 0
+  ensures conf_kept: result0.conf.EnableLRU == conf.EnableLRU && result0.conf.OnDelete == conf.OnDelete
+
+func (*cache).Del
+  requires c != nil && !locked(c.lock)
+  ensures unlocked: !locked(c.lock)
+  ensures removed: forall k: haskey(c.items, k) <==> (old(haskey(c.items, k)) && k != strid(key))
+  ensures others_kept: forall k: haskey(c.items, k) ==> mapget(c.items, k) == old(mapget(c.items, k))
+  ensures absent_noop: !old(haskey(c.items, strid(key))) ==> c.size == old(c.size)
+  ensures size_accounting: old(haskey(c.items, strid(key))) ==>
+    (let it = old(mapget(c.items, strid(key))) in
+     (c.size - (old(c.size) - (len(it.key) + len(it.value)))) % 18446744073709551616 == 0)
+
+func (*cache).Get
+  requires c != nil && !locked(c.lock)
+  ensures unlocked: !locked(c.lock)
+  ensures hit_value: old(haskey(c.items, strid(key))) ==> result0 == old(mapget(c.items, strid(key))).value &&
+    (c.hit - old(c.hit) - 1) % 4294967296 == 0 && c.miss == old(c.miss)
+  ensures miss_nil: !old(haskey(c.items, strid(key))) ==> isnil(result0) &&
+    (c.miss - old(c.miss) - 1) % 4294967296 == 0 && c.hit == old(c.hit)
+  ensures entries_unchanged: c.items == old(c.items) && c.size == old(c.size) &&
+    (forall k: (haskey(c.items, k) <==> old(haskey(c.items, k))) && mapget(c.items, k) == old(mapget(c.items, k)))
+
+func (*cache).Clear
+  requires c != nil && !locked(c.lock)
+  ensures unlocked: !locked(c.lock)
+  ensures emptied: (forall k: !haskey(c.items, k)) && c.size == 0 && c.hit == 0 && c.miss == 0 && len(c.items) == 0
+
+func (*cache).Stats
+  requires c != nil && !locked(c.lock)
+  ensures unlocked: !locked(c.lock)
+  ensures snapshot: result0.Count == len(c.items) && result0.Size == (c.size < 9223372036854775808 ? c.size : c.size - 18446744073709551616) &&
+    result0.Hit == c.hit && result0.Miss == c.miss
+  ensures read_only: c.items == old(c.items) && c.size == old(c.size) && c.hit == old(c.hit) && c.miss == old(c.miss)
+
+func (*cache).Set
+  requires c != nil && !locked(c.lock)
+  callback requires lock_released: !locked(c.lock)
+  callback modifies c.items, c.size, c.hit, c.miss, allof("listItem"), allof("map[string]*item")
+  callback ensures !locked(c.lock)
+  ensures unlocked: !locked(c.lock)
+  ensures too_large_refused: len(key) + len(val) > c.conf.MaxElementSize ==>
+    !result0 && c.items == old(c.items) && c.size == old(c.size) &&
+    (forall k: (haskey(c.items, k) <==> old(haskey(c.items, k))) && mapget(c.items, k) == old(mapget(c.items, k)))
+  ensures full_without_lru_refused: !c.conf.EnableLRU && len(key) + len(val) <= c.conf.MaxElementSize &&
+    (old(c.size) + len(key) + len(val) > c.conf.MaxSize || old(len(c.items)) == c.conf.MaxCount) ==>
+    !result0 && c.items == old(c.items) && c.size == old(c.size) &&
+    (forall k: (haskey(c.items, k) <==> old(haskey(c.items, k))) && mapget(c.items, k) == old(mapget(c.items, k)))
+  ensures stored: (len(key) + len(val) <= c.conf.MaxElementSize &&
+    (c.conf.EnableLRU || !(old(c.size) + len(key) + len(val) > c.conf.MaxSize || old(len(c.items)) == c.conf.MaxCount))) ==>
+    haskey(c.items, strid(key)) && mapget(c.items, strid(key)).value == val && mapget(c.items, strid(key)).key == key
+  ensures without_lru_reports_replacement: !c.conf.EnableLRU && haskey(c.items, strid(key)) && !(len(key) + len(val) > c.conf.MaxElementSize) &&
+    !(old(c.size) + len(key) + len(val) > c.conf.MaxSize || old(len(c.items)) == c.conf.MaxCount) ==> (result0 <==> old(haskey(c.items, strid(key))))
+  loop 0
+    invariant lock_held: locked(c.lock)
+    invariant monitor_inv: monitor(c, "lock")
+    invariant evicts_only_with_lru: c.conf.EnableLRU ||
+      !(((c.size + addSize < 18446744073709551616) ? c.size + addSize : c.size + addSize - 18446744073709551616) > c.conf.MaxSize ||
+        len(c.items) == c.conf.MaxCount)
+    invariant seq_first_iteration_state: !c.conf.EnableLRU ==> c.items == old(c.items) && c.size == old(c.size) &&
+      (forall k: (haskey(c.items, k) <==> old(haskey(c.items, k))) && mapget(c.items, k) == old(mapget(c.items, k)))
+    assume_invariant list_inv: monitor_assumed(c, "lock")
+@*/
